@@ -736,6 +736,10 @@ impl<'a> ProgGen<'a> {
             PadGet,
             PadUse,
             PadVal(GT, u8),
+            // an implicit function (it can be defined, passed and compared, never applied) and a
+            // copy of it obtained through an identity at its type
+            ImplicitFn(GT, GT),
+            ImplicitKept,
         }
         let n = 1 + self.r.usize(4);
         let mut kinds: Vec<Kind> = vec![];
@@ -769,6 +773,12 @@ impl<'a> ProgGen<'a> {
                     let ty = self.random_type(1);
                     kinds.push(Kind::Placeholder(ty));
                 }
+                11 if self.r.chance(1, 2) => {
+                    let a = if self.r.chance(1, 2) { GT::Int } else { GT::Bool };
+                    let b = if self.r.chance(1, 2) { GT::Int } else { GT::Bool };
+                    kinds.push(Kind::ImplicitFn(a, b));
+                    kinds.push(Kind::ImplicitKept);
+                }
                 10 if self.cfg.type_level && self.cfg.recursion && self.cfg.rec_families && self.r.chance(1, 3) => {
                     let ty = if self.r.chance(1, 2) { GT::Int } else { GT::Bool };
                     kinds.push(Kind::PadFam(ty.clone()));
@@ -800,6 +810,8 @@ impl<'a> ProgGen<'a> {
             let (hint, ty) = match k {
                 Kind::Plain(t) => ("", t.clone()),
                 Kind::Placeholder(t) => ("_", t.clone()),
+                Kind::ImplicitFn(..) => ("imp", GT::Opaque),
+                Kind::ImplicitKept => ("kept", GT::Opaque),
                 Kind::PadFam(_) => ("pad", GT::Opaque),
                 Kind::PadGet => ("get", GT::Opaque),
                 Kind::PadUse => ("use", GT::Opaque),
@@ -847,7 +859,7 @@ impl<'a> ProgGen<'a> {
         // a syntactic value may mention any *function-valued* definition of the group; any other
         // definition may mention earlier definitions and later function-valued ones whose bodies
         // mention only function-valued definitions. Annotations may mention every alias.
-        let is_fn: Vec<bool> = kinds.iter().map(|k| matches!(k, Kind::RecFn | Kind::MutualA | Kind::MutualB | Kind::Poly(_) | Kind::DepFn(_) | Kind::DepCoerce | Kind::PadFam(_) | Kind::PadGet | Kind::PadUse)).collect();
+        let is_fn: Vec<bool> = kinds.iter().map(|k| matches!(k, Kind::RecFn | Kind::MutualA | Kind::MutualB | Kind::Poly(_) | Kind::DepFn(_) | Kind::DepCoerce | Kind::PadFam(_) | Kind::PadGet | Kind::PadUse | Kind::ImplicitFn(..))).collect();
         let mut defs: Vec<(String, Option<Box<H>>, H)> = vec![];
         for i in 0..n {
             // annotation: every alias of the group is usable there (forward references in types)
@@ -855,7 +867,7 @@ impl<'a> ProgGen<'a> {
                 self.ctx[base + j].usable = matches!(kinds[j], Kind::Alias(_));
             }
             let ann = match &kinds[i] {
-                Kind::DepCoerce | Kind::PadFam(_) | Kind::PadGet | Kind::PadUse | Kind::PadVal(..) => None,
+                Kind::DepCoerce | Kind::PadFam(_) | Kind::PadGet | Kind::PadUse | Kind::PadVal(..) | Kind::ImplicitFn(..) | Kind::ImplicitKept => None,
                 Kind::AliasedValue(j) => {
                     self.feature("forward-type-alias");
                     Some(hb(H::Var(names[*j].clone())))
@@ -919,6 +931,34 @@ impl<'a> ProgGen<'a> {
                     let call = H::App(hb(H::Var(other)), hb(H::Bin(Op::Sub, hb(H::Var(p.clone())), hb(H::lit(1)))));
                     let body = H::If(hb(H::Bin(Op::Le, hb(H::Var(p.clone())), hb(H::lit(0)))), hb(base_val.clone()), hb(H::If(hb(H::Bin(Op::Gt, hb(H::Var(p.clone())), hb(H::lit(40)))), hb(base_val), hb(call))));
                     H::Lam(p, false, Some(hb(H::Int)), hb(body))
+                }
+                Kind::ImplicitFn(..) | Kind::ImplicitKept => {
+                    self.feature("implicit-function");
+                    let f0 = (0..=i).rev().find(|j| matches!(kinds[*j], Kind::ImplicitFn(..))).unwrap_or(i);
+                    let (a, b) = match &kinds[f0] {
+                        Kind::ImplicitFn(a, b) => (a.clone(), b.clone()),
+                        _ => (GT::Int, GT::Int),
+                    };
+                    let u = self.fresh_name("u");
+                    // the function type, dependent in form (named parameter), implicit
+                    let fty = |name: &str| H::Pi(name.to_owned(), true, hb(type_to_h(&a)), hb(type_to_h(&b)));
+                    let inferred = self.cfg.mode == Mode::Inferred;
+                    let (ann, def) = if matches!(kinds[i], Kind::ImplicitFn(..)) {
+                        self.ctx.push(Entry { name: u.clone(), ty: a.clone(), alias_of: None, usable: true, recursive_fn: false });
+                        for j in 0..n {
+                            self.ctx[base + j].usable = false;
+                        }
+                        let body = self.term(&b, d.min(2));
+                        self.ctx.pop();
+                        (fty(&u), H::Lam(u.clone(), true, if inferred && self.r.chance(1, 3) { None } else { Some(hb(type_to_h(&a))) }, hb(body)))
+                    } else {
+                        let h = self.fresh_name("h");
+                        let v = self.fresh_name("w");
+                        (fty(&v), H::App(hb(H::Lam(h.clone(), false, Some(hb(fty(&u))), hb(H::Var(h)))), hb(H::Var(names[f0].clone()))))
+                    };
+                    let ann = if inferred && self.r.chance(1, 3) { None } else { Some(hb(ann)) };
+                    defs.push((names[i].clone(), ann, def));
+                    continue;
                 }
                 Kind::PadFam(_) | Kind::PadGet | Kind::PadUse | Kind::PadVal(..) => {
                     self.feature("recursive-type-family");
